@@ -105,6 +105,9 @@ pub fn check_input(input: &str, specs: Option<&[TagSpec]>, st: &mut Stats) -> Op
     let mut scopes: HashMap<usize, Scope> = HashMap::new();
     for (k, &id) in elems.iter().enumerate() {
         let (tname, tattrs) = tags[k];
+        if tattrs.len() >= 33 {
+            st.count("tags_with_33_or_more_attributes");
+        }
         let node = &inner.nodes[id];
         let h = &node.handle.name;
         // sanity of the alignment itself
@@ -226,10 +229,16 @@ fn gen_elem(rng: &mut Rng, depth: usize, budget: &mut usize) -> GNode {
         let (src, val) = *rng.pick(URIS);
         attrs.push(GAttr { prefix: pre, local: loc, src, val });
     }
-    let na = [0, 0, 1, 2, 3, 4][rng.below(6)];
+    // one element in 25 is wide: dozens of attributes (look-back windows, hashing, reallocation)
+    let wide = rng.chance(1, 25);
+    const WIDE_LOCALS: [&str; 48] = ["w0", "w1", "w2", "w3", "w4", "w5", "w6", "w7", "w8", "w9", "w10", "w11", "w12", "w13", "w14", "w15", "w16", "w17", "w18", "w19", "w20", "w21", "w22", "w23", "w24", "w25", "w26", "w27", "w28", "w29", "w30", "w31", "w32", "w33", "w34", "w35", "w36", "w37", "w38", "w39", "w40", "w41", "w42", "w43", "w44", "w45", "w46", "w47"];
+    let na = if wide { rng.range(20, 90) } else { [0, 0, 1, 2, 3, 4][rng.below(6)] };
+    if wide {
+        *budget = budget.saturating_sub(3);
+    }
     for _ in 0..na {
         let ap = *rng.pick(&["", "", "p", "q", "r", "xml"]);
-        let al = *rng.pick(&["x", "y", "z", "xmlns", "lang", "p", "q"]);
+        let al = if wide && !rng.chance(1, 8) { *rng.pick(&WIDE_LOCALS) } else { *rng.pick(&["x", "y", "z", "xmlns", "lang", "p", "q"]) };
         if ap.is_empty() && al == "xmlns" {
             continue;
         }
@@ -430,11 +439,18 @@ pub fn run(args: &Args) -> (Meta, Stats) {
                 check_text(&soup, st);
                 st.count("soup_cases");
             }
+            if rng.chance(1, 60) {
+                // scaled-up documents: wide tags with lexical and resolved duplicates at a distance, deep
+                // namespace scopes, long URIs (attribute lists from the tokenizer, signatures soup:...)
+                let big = crate::big::big_xml(&mut rng);
+                check_text(&big, st);
+                st.count("big_xml_cases");
+            }
         }
     });
     let mut m = super::meta(
         args,
-        "namespace-shape documents generated together with their tag/attribute lists (nested elements with xmlns / xmlns:p declarations, un-declarations, shadowing, unbound prefixes, xml/xmlns prefixes, the special-cased <script/>, empty and short tags, omitted end tags so one end tag pops several elements, attribute names that collide only by local name or only after resolution, shuffled attribute order) plus XML soup. For every element the sink receives, an independent resolver computes the namespace of the element and of each attribute from the declarations on the element's own tag (as the generator wrote it, not as the tokenizer reported it) over the scope of its parent in the built tree; a non-declaration attribute may be missing only if an earlier attribute of the same tag has the same expanded name; attribute-permuted renderings must give the same element namespaces and attribute expanded names. Non-trivial = the input contains a declaration; distinct by input hash.",
+        "namespace-shape documents generated together with their tag/attribute lists (nested elements with xmlns / xmlns:p declarations, un-declarations, shadowing, unbound prefixes, xml/xmlns prefixes, the special-cased <script/>, empty and short tags, omitted end tags so one end tag pops several elements, attribute names that collide only by local name or only after resolution, shuffled attribute order; one element in 25 carries 20-90 attributes) plus XML soup and scaled-up documents (wide tags with duplicates 31-33 or more positions apart, 100-deep namespace scopes). For every element the sink receives, an independent resolver computes the namespace of the element and of each attribute from the declarations on the element's own tag (as the generator wrote it, not as the tokenizer reported it) over the scope of its parent in the built tree; a non-declaration attribute may be missing only if an earlier attribute of the same tag has the same expanded name; attribute-permuted renderings must give the same element namespaces and attribute expanded names. Non-trivial = the input contains a declaration; distinct by input hash.",
         &[
             "nesting is read from the tree the builder produced, so the oracle shares none of its push/pop bookkeeping; a wrong nesting itself is outside C16",
             "declarations that try to rebind xml/xmlns or bind a prefix to the xmlns namespace are treated as ignored; a tag never declares the same prefix twice (not well-formed, outcome undefined)",
@@ -448,6 +464,7 @@ pub fn run(args: &Args) -> (Meta, Stats) {
         ("elem:unbound-prefix".into(), 200),
         ("attr:prefixed".into(), 500),
         ("permutation_runs".into(), 500),
+        ("tags_with_33_or_more_attributes".into(), 100),
     ];
     (m, st)
 }
